@@ -6,3 +6,58 @@
 //! behaviour is changed when the feature is enabled.
 
 #![allow(missing_docs)]
+
+use std::sync::{Arc, Mutex as StdMutex, RwLock as StdRwLock};
+
+/// In-memory replacement for the QUIC socket of one `TransportHandle`.
+///
+/// When a router is installed, `TransportHandle::send_message` hands the framed
+/// message (the serialized `WireMessage`, produced by the unmodified framing
+/// code) to `route` instead of the socket, and `connect_peer` asks `connect`
+/// which transport peer id lives at an address.  Everything above the socket
+/// (peer registry checks, framing, events, dispatcher) runs unmodified.
+#[async_trait::async_trait]
+pub trait VerifRouter: Send + Sync {
+    /// Deliver `frame` from transport id `from` to transport id `to`.
+    async fn route(&self, from: &str, to: &str, frame: Vec<u8>) -> crate::Result<()>;
+    /// Dial `address`; returns the transport peer id that answers there.
+    async fn connect(&self, from: &str, address: &str) -> crate::Result<String>;
+}
+
+/// Per-transport hook state (router + a sender into the real receive loop).
+#[derive(Default)]
+pub struct TransportHook {
+    router: StdRwLock<Option<Arc<dyn VerifRouter>>>,
+    inject_tx: StdMutex<
+        Option<tokio::sync::mpsc::Sender<(ant_quic::nat_traversal_api::PeerId, Vec<u8>)>>,
+    >,
+}
+
+impl TransportHook {
+    pub fn router(&self) -> Option<Arc<dyn VerifRouter>> {
+        self.router.read().ok().and_then(|g| g.clone())
+    }
+    pub fn set_router(&self, router: Option<Arc<dyn VerifRouter>>) {
+        if let Ok(mut g) = self.router.write() {
+            *g = router;
+        }
+    }
+    pub(crate) fn set_inject_tx(
+        &self,
+        tx: tokio::sync::mpsc::Sender<(ant_quic::nat_traversal_api::PeerId, Vec<u8>)>,
+    ) {
+        if let Ok(mut g) = self.inject_tx.lock() {
+            *g = Some(tx);
+        }
+    }
+    pub(crate) fn inject_tx(
+        &self,
+    ) -> Option<tokio::sync::mpsc::Sender<(ant_quic::nat_traversal_api::PeerId, Vec<u8>)>> {
+        self.inject_tx.lock().ok().and_then(|g| g.clone())
+    }
+}
+
+/// Public wrapper for the crate-private frame parser (`network::parse_protocol_message`).
+pub fn parse_protocol_message(bytes: &[u8], source: &str) -> Option<crate::network::P2PEvent> {
+    crate::network::parse_protocol_message(bytes, source)
+}
